@@ -108,6 +108,28 @@ Section Spec.
 
   Lemma nodup_fst_nodup (m : list (K * V)) : NoDup (map fst m) -> NoDup m.
   Proof. apply NoDup_map_inv. Qed.
+
+  (* maps with the same bindings answer every operation alike *)
+  Lemma same_bindings_perm (m1 m2 : amap K V) : NoDup (map fst m1) -> NoDup (map fst m2) ->
+    (forall k, a_get m1 k = a_get m2 k) -> Permutation m1 m2.
+  Proof.
+    intros H1 H2 Hg. apply NoDup_Permutation.
+    - apply NoDup_map_inv with (f := fst). assumption.
+    - apply NoDup_map_inv with (f := fst). assumption.
+    - intros [k v]. rewrite <- (a_get_some m1 k v H1), <- (a_get_some m2 k v H2), Hg. tauto.
+  Qed.
+
+  Lemma spec_out_same (m1 m2 : amap K V) o : NoDup (map fst m1) -> NoDup (map fst m2) ->
+    (forall k, a_get m1 k = a_get m2 k) -> snd (spec_step K V keq m1 o) = snd (spec_step K V keq m2 o).
+  Proof.
+    intros H1 H2 Hg. pose proof (Permutation_length (same_bindings_perm m1 m2 H1 H2 Hg)) as Hl.
+    destruct o; unfold TableModel.spec_step; try rewrite Hg; try rewrite Hl; try reflexivity.
+    - destruct (a_get m2 k); reflexivity.
+    - destruct (a_get m2 k); reflexivity.
+    - destruct (a_get m2 k); reflexivity.
+    - destruct (n =? 0); [reflexivity|]. destruct (n <? length m2); reflexivity.
+  Qed.
+
 End Spec.
 
 Section TP.
@@ -734,7 +756,47 @@ Section Final.
     exists t', t_assign_from K V keq hash table_swap table_primes table_load_num table_load_den src = Some t' /\
       t_inv t' /\ R t' m.
   Proof. apply (assign_from_refines K V keq hash table_swap _ _ _ keq_spec table_swap_strict table_swap_ge ideal_gt). Qed.
+
+  (* two histories that leave the same bindings leave tables that answer alike *)
+  Lemma T_order_independent (ops1 ops2 : list (op K V)) :
+    let t1 := T_run ops1 in let t2 := T_run ops2 in
+    let m1 := spec_run ops1 [] in let m2 := spec_run ops2 [] in
+    (forall k, a_get m1 k = a_get m2 k) ->
+    (forall o, snd (T_step t1 o) = snd (T_step t2 o)) /\
+    t_len K V t1 = t_len K V t2 /\ Permutation (t_iter K V t1) (t_iter K V t2).
+  Proof.
+    intros t1 t2 m1 m2 Hg.
+    destruct (T_refines_map ops1 (TSelfCopy K V)) as [Hi1 [Hr1 _]]. fold t1 in Hi1, Hr1. fold m1 in Hr1.
+    destruct (T_refines_map ops2 (TSelfCopy K V)) as [Hi2 [Hr2 _]]. fold t2 in Hi2, Hr2. fold m2 in Hr2.
+    pose proof (same_bindings_perm K V keq keq_spec m1 m2 (proj1 Hr1) (proj1 Hr2) Hg) as Hp.
+    split; [|split].
+    - intros o. destruct (T_step_refines t1 m1 o Hi1 Hr1) as [_ [_ H1]].
+      destruct (T_step_refines t2 m2 o Hi2 Hr2) as [_ [_ H2]]. rewrite H1, H2.
+      apply (spec_out_same K V keq keq_spec m1 m2 o (proj1 Hr1) (proj1 Hr2) Hg).
+    - rewrite (inv_len K V hash t1 m1 Hi1 Hr1), (inv_len K V hash t2 m2 Hi2 Hr2). apply Permutation_length. exact Hp.
+    - eapply Permutation_trans; [apply (R_perm K V hash t1 m1 (proj1 Hi1) Hr1)|].
+      eapply Permutation_trans; [exact Hp|]. apply Permutation_sym. apply (R_perm K V hash t2 m2 (proj1 Hi2) Hr2).
+  Qed.
 End Final.
+
+(* the same history under two hash functions: same outcomes, same len, same bindings *)
+Lemma T_hash_independent (K V : Type) (keq : K -> K -> bool) (hash1 hash2 : K -> N) :
+  (forall a b, keq a b = true <-> a = b) ->
+  forall (ops : list (op K V)),
+  let t1 := T_run K V keq hash1 ops in let t2 := T_run K V keq hash2 ops in
+  (forall o, snd (T_step K V keq hash1 t1 o) = snd (T_step K V keq hash2 t2 o)) /\
+  t_len K V t1 = t_len K V t2 /\ Permutation (t_iter K V t1) (t_iter K V t2).
+Proof.
+  intros keq_spec ops t1 t2. set (m := spec_run K V keq ops []).
+  destruct (T_refines_map K V keq hash1 keq_spec ops (TSelfCopy K V)) as [Hi1 [Hr1 _]]. fold t1 in Hi1, Hr1. fold m in Hr1.
+  destruct (T_refines_map K V keq hash2 keq_spec ops (TSelfCopy K V)) as [Hi2 [Hr2 _]]. fold t2 in Hi2, Hr2. fold m in Hr2.
+  split; [|split].
+  - intros o. destruct (T_step_refines K V keq hash1 keq_spec t1 m o Hi1 Hr1) as [_ [_ H1]].
+    destruct (T_step_refines K V keq hash2 keq_spec t2 m o Hi2 Hr2) as [_ [_ H2]]. rewrite H1, H2. reflexivity.
+  - rewrite (inv_len K V hash1 t1 m Hi1 Hr1), (inv_len K V hash2 t2 m Hi2 Hr2). reflexivity.
+  - eapply Permutation_trans; [apply (R_perm K V hash1 t1 m (proj1 Hi1) Hr1)|].
+    apply Permutation_sym. apply (R_perm K V hash2 t2 m (proj1 Hi2) Hr2).
+Qed.
 
 (* ---------------------------------------------------------------- the old rule `if (j >= p)` *)
 Local Open Scope Z_scope.
